@@ -65,6 +65,11 @@ fn render_while_source_order(
                     continue;
                 }
 
+                // The trailing `;` of `... end;` is emitted after `end` by the caller.
+                if source_order_token_is_trailing_statement_semicolon(syntax, token) {
+                    continue;
+                }
+
                 if previous_significant_token(&children, index).is_some()
                     && !previous_significant_is_comment(&children, index)
                 {
@@ -211,6 +216,11 @@ fn render_for_source_order(
                 }
 
                 if kind == LuaTokenKind::TkEnd {
+                    continue;
+                }
+
+                // The trailing `;` of `... end;` is emitted after `end` by the caller.
+                if source_order_token_is_trailing_statement_semicolon(syntax, token) {
                     continue;
                 }
 
@@ -375,6 +385,11 @@ fn render_for_range_source_order(
                 }
 
                 if kind == LuaTokenKind::TkEnd {
+                    continue;
+                }
+
+                // The trailing `;` of `... end;` is emitted after `end` by the caller.
+                if source_order_token_is_trailing_statement_semicolon(syntax, token) {
                     continue;
                 }
 
@@ -802,6 +817,11 @@ fn render_do_source_order(
                 }
 
                 if kind == LuaTokenKind::TkEnd {
+                    continue;
+                }
+
+                // The trailing `;` of `... end;` is emitted after `end` by the caller.
+                if source_order_token_is_trailing_statement_semicolon(syntax, token) {
                     continue;
                 }
 
